@@ -39,12 +39,12 @@ impl of the same name for the same view type **as it is** (sync `to_html()`, `hy
 | `runHydrated`, `runCsr`, `likeCsr` | the two runs the property compares and its oracle                                        |
 | `stripL`, `treesBeq`          | the property's observable: comments removed, adjacent text merged, empty text dropped         |
 
-| `suspTy`, `clientOf`, `fidsOf`, `compile`, `Agree`, `syncPart`, `planOf`, `runPlan`, `stream` | reactive_graph/suspense.rs `Suspend` and the streamed forms (`to_html_async_with_buf::<OUT_OF_ORDER>` of every modelled view with the `Position` threaded), run on `Model/Stream.lean` (C07): see the section at the end of this file |
+| `suspTy`, `clientOf`, `fidsOf`, `compile`, `compileB`, `Agree`, `AgreeB`, `syncPart`, `planOf`, `runPlan`, `stream` | reactive_graph/suspense.rs `Suspend` and the streamed forms (`to_html_async_with_buf::<OUT_OF_ORDER>` of every modelled view with the `Position` threaded), run on `Model/Stream.lean` (C07): see the section at the end of this file |
 
 Not modelled (stated): `FROM_SERVER = false` (templates), `InertElement`, `Keyed`, `StaticVec`/`Fragment`
 (nested *tuples* are modelled; the driver expresses the first three through modelled constructors), islands,
-reactive closures (their hydration is the hydration of the value they hold), `inner_html`, a `Suspend` nested in
-the value of a pending `Suspend`, `Suspend` under a `<Suspense>` boundary (C07), the `hot-reload` comment skipping of
+reactive closures (their hydration is the hydration of the value they hold), `inner_html`,
+`Suspend` under a `<Suspense>` boundary (C07), a `Suspend` inside a `<textarea>` that is rendered later, the `hot-reload` comment skipping of
 `Rndr::first_child/next_sibling` under `debug_assertions` (such comments are never emitted by `to_html`).
 -/
 namespace Leptos.Hydrate
@@ -837,8 +837,9 @@ threaded (C07's own `compile` has no positions): it produces a builder program o
   guess as well: right iff the value leaves the position it started from.
 `Agree` is the decidable condition "every guess is right"; under it the resolved document of the program is the
 synchronous HTML (`compile_doc`, Proofs/HydrateStream), otherwise the following string may lose or gain a `<!>`
-(class `suspend-position`, F-C05-6).  A `Suspend` nested in the value of a pending `Suspend` is not modelled (its
-readiness is decided when the outer future resolves); the harness does not generate it. -/
+(class `suspend-position`, F-C05-6).  A `Suspend` inside the value of a pending `Suspend` is rendered when the outer
+future resolves: `compileB` (continuation style; `Op.ite` = the `now_or_never` the stream machine evaluates then),
+`AgreeB` (its guess must be right whether it turns out ready or pending). -/
 
 def suspTy (fid : Nat) : Ty := .elem "#suspend" [] (.arr fid .unit)
 
@@ -876,6 +877,21 @@ def fidsOfL : List View → List Nat
   | v :: vs => fidsOf v ++ fidsOfL vs
 end
 
+mutual
+/-- how deep `Suspend`s are nested in a view (0 = none) -/
+def suspDepth : View → Nat
+  | .elem _ _ c => suspDepth c
+  | .tuple vs => suspDepthL vs
+  | .osome v => suspDepth v
+  | .either _ _ v => suspDepth v
+  | .vec vs => suspDepthL vs
+  | .any ty v => (match suspFid ty with | some _ => 1 | none => 0) + suspDepth v
+  | _ => 0
+def suspDepthL : List View → Nat
+  | [] => 0
+  | v :: vs => max (suspDepth v) (suspDepthL vs)
+end
+
 def suspFut (f : Nat) : Stream.Fut := { deps := [f], tick := false }
 
 def isSyncOp : Stream.Op → Bool
@@ -895,8 +911,66 @@ def kidsOps (tag : String) (ops : List Stream.Op) : List Stream.Op :=
   if tag.toList = Html.tTextarea && ops.all isSyncOp then [.sync (Html.textareaBody true true (syncCat ops))] else ops
 
 mutual
-/-- `RenderHtml::to_html_async_with_buf::<ooo>(buf, position, escape)`: the calls on the `StreamBuilder` and the
-    `Position` left behind; `done0` = the futures already completed when the view is rendered -/
+/-- `to_html_async_with_buf::<ooo>` of a view that is rendered *later* — the value of a `Suspend` that was pending,
+    rendered by its future's sub-builder once the future resolves.  Whether a `Suspend` inside it is ready is only
+    known then (`Op.ite` = `now_or_never`, evaluated by the stream machine when the body runs), and the position the
+    rest continues with depends on it: continuation style, `k` = what is rendered after this view from the position
+    it leaves. -/
+def compileB (ooo : Bool) (esc : Bool) : View → Position → (Position → List Stream.Op) → List Stream.Op
+  | .elem tag as c, _, k =>
+    .sync ('<' :: tag.toList ++ Html.attrsHtml (attrsOf as) ++ ['>']) ::
+      ((if isVoidT tag then []
+        else (if viewExists c then kidsOps tag (compileB ooo (escKids tag) c .firstChild (fun _ => [])) else []) ++
+             [.sync ('<' :: '/' :: tag.toList ++ ['>'])]) ++ k .nextChild)
+  | .tuple vs, pos, k => compileBL ooo esc vs pos k
+  | .osome v, pos, k => compileB ooo esc v pos k
+  | .either _ _ v, pos, k => compileB ooo esc v pos k
+  | .vec vs, pos, k =>
+    compileBL ooo esc vs pos (fun p => (if esc then [.sync marker] else []) ++ k (if esc then .nextChild else p))
+  | .any ty v, pos, k =>
+    match suspFid ty with
+    | none => compileB ooo esc v pos k
+    | some f =>
+      [.ite (suspFut f) (compileB ooo esc v pos k)
+        (if ooo then
+          [.nextId, .fallback marker, .ooo (suspFut f) true (compileB ooo true v pos (fun _ => [])) none] ++ k pos
+         else [.nextId, .async (suspFut f) (compileB ooo esc v pos (fun _ => []))] ++ k .nextChild)]
+  | .text s, pos, k => .sync (html esc (.text s) pos) :: k .nextChildAfterText
+  | .unit, pos, k => .sync (html esc .unit pos) :: k (after esc .unit pos)
+  | .onone, pos, k => .sync (html esc .onone pos) :: k (after esc .onone pos)
+def compileBL (ooo : Bool) (esc : Bool) : List View → Position → (Position → List Stream.Op) → List Stream.Op
+  | [], pos, k => k pos
+  | v :: vs, pos, k => compileB ooo esc v pos (fun p => compileBL ooo esc vs p k)
+end
+
+mutual
+/-- every `Suspend` of a view that is rendered later leaves the position the server would guess, should it be pending
+    then (whether it will be is not known before) -/
+def AgreeB (ooo : Bool) (esc : Bool) : View → Position → Bool
+  | .elem tag _ c, _ =>
+    isVoidT tag || !viewExists c ||
+      (AgreeB ooo (escKids tag) c .firstChild &&
+        (tag.toList != Html.tTextarea || (compileB ooo (escKids tag) c .firstChild (fun _ => [])).all isSyncOp))
+  | .tuple vs, pos => AgreeBL ooo esc vs pos
+  | .osome v, pos => AgreeB ooo esc v pos
+  | .either _ _ v, pos => AgreeB ooo esc v pos
+  | .vec vs, pos => AgreeBL ooo esc vs pos
+  | .any ty v, pos =>
+    match suspFid ty with
+    | none => AgreeB ooo esc v pos
+    | some _ =>
+      if ooo then esc && AgreeB ooo true v pos && decide (after true v pos = pos)
+      else AgreeB ooo esc v pos && decide (after esc v pos = .nextChild)
+  | _, _ => true
+def AgreeBL (ooo : Bool) (esc : Bool) : List View → Position → Bool
+  | [], _ => true
+  | v :: vs, pos => AgreeB ooo esc v pos && AgreeBL ooo esc vs (after esc v pos)
+end
+
+mutual
+/-- `RenderHtml::to_html_async_with_buf::<ooo>(buf, position, escape)` at render time: the calls on the `StreamBuilder`
+    and the `Position` left behind; `done0` = the futures already completed when the view is rendered (the value of a
+    `Suspend` that is pending then is rendered later: `compileB`) -/
 def compile (ooo : Bool) (done0 : List Nat) (esc : Bool) : View → Position → List Stream.Op × Position
   | .elem tag as c, _ =>
     (.sync ('<' :: tag.toList ++ Html.attrsHtml (attrsOf as) ++ ['>']) ::
@@ -916,9 +990,9 @@ def compile (ooo : Bool) (done0 : List Nat) (esc : Bool) : View → Position →
     | some f =>
       if done0.contains f then compile ooo done0 esc v pos
       else if ooo then
-        ([.nextId, .fallback marker, .ooo (suspFut f) true (compile ooo done0 true v pos).1 none], pos)
+        ([.nextId, .fallback marker, .ooo (suspFut f) true (compileB ooo true v pos (fun _ => [])) none], pos)
       else
-        ([.nextId, .async (suspFut f) (compile ooo done0 esc v pos).1], .nextChild)
+        ([.nextId, .async (suspFut f) (compileB ooo esc v pos (fun _ => []))], .nextChild)
   | .text s, pos => ([.sync (html esc (.text s) pos)], .nextChildAfterText)
   | .unit, pos => ([.sync (html esc .unit pos)], after esc .unit pos)
   | .onone, pos => ([.sync (html esc .onone pos)], after esc .onone pos)
@@ -947,8 +1021,8 @@ def Agree (ooo : Bool) (done0 : List Nat) (esc : Bool) : View → Position → B
     | none => Agree ooo done0 esc v pos
     | some f =>
       if done0.contains f then Agree ooo done0 esc v pos
-      else if ooo then esc && Agree ooo done0 true v pos && decide (after true v pos = pos)
-      else Agree ooo done0 esc v pos && decide (after esc v pos = .nextChild)
+      else if ooo then esc && AgreeB ooo true v pos && decide (after true v pos = pos)
+      else AgreeB ooo esc v pos && decide (after esc v pos = .nextChild)
   | _, _ => true
 def AgreeL (ooo : Bool) (done0 : List Nat) (esc : Bool) : List View → Position → Bool
   | [], _ => true
@@ -956,21 +1030,29 @@ def AgreeL (ooo : Bool) (done0 : List Nat) (esc : Bool) : List View → Position
 end
 
 mutual
-/-- `Suspend::rebuild` does nothing at once: it spawns a task that runs `Some(value).rebuild(state)` later.  A rebuild
-    with `b` of a state built from `a` is therefore the rebuild with `syncPart a b` (where `b` meets a `Suspend` of `a`
-    in place, `a`'s value stays) followed, once the tasks have run (in spawn = document order), by the rebuild with
-    `b` itself.  (The order is only observable when two states share a node: class `suspend-position`.) -/
-def syncPart : View → View → View
-  | .elem _ _ c, .elem t' as' c' => .elem t' as' (syncPart c c')
-  | .tuple vs, .tuple ws => .tuple (syncPartL vs ws)
-  | .osome v, .osome w => .osome (syncPart v w)
-  | .either _ i v, .either m j w => if i = j then .either m j (syncPart v w) else .either m j w
-  | .vec vs, .vec ws => if vs.isEmpty then .vec ws else .vec (syncPartL vs ws)
+/-- `Suspend::rebuild` does nothing at once: it spawns a task that runs `Some(value).rebuild(state)` later (and a
+    `Suspend` inside that value spawns its own task then).  A rebuild with `b` of a state built from `a` is therefore
+    the rebuild with `syncPart 0 a b` (where `b` meets a `Suspend` of `a` in place, `a`'s value stays), then — the
+    tasks run in spawn order — with `syncPart 1 a b` (the values of the outermost `Suspend`s, not those of the
+    `Suspend`s inside them), … and finally with `b` itself.  (The order is only observable when two states share a
+    node: class `suspend-position`.) -/
+def syncPart (depth : Nat) : View → View → View
+  | .elem _ _ c, .elem t' as' c' => .elem t' as' (syncPart depth c c')
+  | .tuple vs, .tuple ws => .tuple (syncPartL depth vs ws)
+  | .osome v, .osome w => .osome (syncPart depth v w)
+  | .either _ i v, .either m j w => if i = j then .either m j (syncPart depth v w) else .either m j w
+  | .vec vs, .vec ws => if vs.isEmpty then .vec ws else .vec (syncPartL depth vs ws)
   | .any ty v, .any ty' w =>
-    if Ty.beq ty' ty then (if (suspFid ty').isSome then .any ty v else .any ty' (syncPart v w)) else .any ty' w
+    if Ty.beq ty' ty then
+      (if (suspFid ty').isSome then
+        (match depth with
+         | 0 => .any ty v
+         | n + 1 => .any ty' (syncPart n v w))
+       else .any ty' (syncPart depth v w))
+    else .any ty' w
   | _, b => b
-def syncPartL : List View → List View → List View
-  | v :: vs, w :: ws => syncPart v w :: syncPartL vs ws
+def syncPartL (depth : Nat) : List View → List View → List View
+  | v :: vs, w :: ws => syncPart depth v w :: syncPartL depth vs ws
   | _, ws => ws
 end
 
